@@ -204,11 +204,11 @@ func (m *warmV1Mutation) name() string {
 // mutations of one file: a pure function of tier, seed, file length and the other files.
 func (w *warmV1) mutations(gr *warmGroup, f slot, fi int, n int, group []slot) []warmV1Mutation {
 	var out []warmV1Mutation
-	stride := 9
+	stride := 13
 	if w.r.Thorough() {
 		stride = 1
 	} else if w.cfg.cache == -1 {
-		stride = 19 // a handle without a cache holds nothing: tamper.go already reads every flipped byte through such handles
+		stride = 29 // a handle without a cache holds nothing: tamper.go already reads every flipped byte through such handles
 	}
 	for off := 0; off < n; off++ {
 		if off == 0 || off == n-1 || (off+int(w.r.Seed)+fi)%stride == 0 {
@@ -273,6 +273,9 @@ func (w *warmV1) readOps(gr *warmGroup, fresh *filesystem.KeyStore, withExport b
 		ks   *filesystem.KeyStore
 	}{{"keystore", w.W}, {"keystore-opened-afterwards", fresh}} {
 		h := h
+		if h.ks == nil {
+			continue
+		}
 		ops = append(ops, warmV1Op{h.name, "get-current-key", func() ([][]byte, [][]byte, error) {
 			cur, _, err := ksrig.ModelCurrent(h.ks, gr.kind, gr.owner.id)
 			return warmSecrets(cur), warmSecrets(gr.cur), err
@@ -397,10 +400,13 @@ func (w *warmV1) readOnlyCase(gr *warmGroup, f slot, m *warmV1Mutation) bool {
 		r.Inconclusive("warm v1: " + err.Error())
 		return false
 	}
-	fresh, err := w.open(-1)
-	if err != nil {
-		r.Inconclusive("warm v1: " + err.Error())
-		return false
+	// the handle opened afterwards: in every second case at quick (tamper.go reads every flipped byte through such handles)
+	var fresh *filesystem.KeyStore
+	if w.n%2 == 0 || r.Thorough() {
+		if fresh, err = w.open(-1); err != nil {
+			r.Inconclusive("warm v1: " + err.Error())
+			return false
+		}
 	}
 	w.n++
 	w.count("w_v1_cases")
